@@ -349,8 +349,32 @@ def check(case, r, tier):
             w = (A.index(u[0]) * 40 + A.index(u[1])) * 40 + A.index(u[2])
             items.append((("r50", s), ".word ^R%s" % s, bytes([w & 255, w >> 8])))
             items.append((("r50+", s), ".dword ^R%s * 2 + 1" % s, bytes([((2 * w + 1) >> 16) & 255, 0, (2 * w + 1) & 255, ((2 * w + 1) >> 8) & 255])))
+            nw = (-w) & 0xFFFF
+            items.append((("r50-neg", s), ".word -^R%s" % s, bytes([nw & 255, nw >> 8])))
+            items.append((("r50-neg-sp", s), ".word - ^R%s + 1" % s, bytes([(nw + 1) & 255, ((nw + 1) >> 8) & 255])))
+            items.append((("r50-neg-imm", s), "mov #-^R%s, r0" % s, b"\xc0\x15" + bytes([nw & 255, nw >> 8])))
+            items.append((("r50-sub", s), ".word 0-^R%s" % s, bytes([nw & 255, nw >> 8])))
+            items.append((("r50-inv", s), ".word ~^R%s" % s, bytes([(~w) & 255, ((~w) >> 8) & 255])))
         for i in range(0, len(items), B):
             batch.run_valid_batch(items[i:i + B], r, ID, describe=lambda it: {"family": "literal"})
+        # character literals under every output charset: the value is the encoded text read as a little-endian number (at most 2 bytes)
+        for cs in ("bk", "koi8-r", "cp1251", "cp866", "latin-1", "utf-8", "utf-16-le", "utf-16-be", "shift_jis", "gbk"):
+            good = []
+            for text in ("a", "~", "\u044f", "\u0416", "\u00e9", "\u00df", "\u20ac", "\u3042", "\u4e2d", "ab", "a\u044f", "\u044fa", "\u044f\u044e", "\u00e9\u00e9"):
+                try:
+                    enc = text.encode(cs)
+                except UnicodeEncodeError:
+                    enc = None
+                for form, lit in (((".word '%s", text),) if len(text) == 1 else ((".word \"%s", text),)):
+                    stmt = form % lit
+                    if enc is None or len(enc) > 2:
+                        batch.expect_error(stmt + "\n", r, ("charlit-bad", cs, stmt), {"kind": "error", "text": stmt + "\n", "charset": cs}, charset=cs)
+                    else:
+                        v = int.from_bytes(enc, "little")
+                        good.append((("charlit", cs, stmt), stmt, bytes([v & 255, v >> 8])))
+                        good.append((("charlit+", cs, stmt), stmt + " + 1", bytes([(v + 1) & 255, ((v + 1) >> 8) & 255])))
+                        good.append((("charlit-sym", cs, stmt), ".word q%d\nq%d = %s" % (len(good), len(good), stmt.split(" ", 1)[1]), bytes([v & 255, v >> 8])))
+            batch.run_valid_batch(good, r, ID, charset=cs, describe=lambda it: {"family": "char-literal"})
     elif k == "bad-digits":
         for s in ("8", "9", "18", "19", "780", "109", "8 + 1", "1 + 9", "(8)", "-8", "-19", "2 * 18"):
             for ctx in (".word %s", ".dword %s", "mov #%s, r0", "x = %s\n.word x", ".byte %s"):
